@@ -59,7 +59,7 @@ func sweepCharLevel(c *Ctx, rec spg.CharRecipe, L int, prefix, cont []uint32, bu
 		t.rng = Sub(0x5eed, "continuation")
 		return genOp(t, rec)
 	}, func(l *Leaf) bool {
-		c.T(l.Res.brief())
+		c.T(l.Res.tkey())
 		if l.Res.Kind != "ok" {
 			if ll.badLeaf == "" {
 				ll.badLeaf = fmt.Sprintf("path %v (after prefix %v): %s", l.Path, prefix, l.Res.brief())
@@ -157,7 +157,7 @@ func prepareChar(c *Ctx, cfg CharCfg, rec spg.CharRecipe, seed uint64) (p charPr
 		}
 	})
 	p.pilot = genOp(NewTape(TapeSpec{Mode: "choice", Seed: mix(seed, "pilot"), Default: "random"}), rec)
-	c.T(p.pilot.brief())
+	c.T(p.pilot.tkey())
 	if p.pilot.Kind != "ok" {
 		p.refuse = p.pilot.brief()
 		return
@@ -289,7 +289,7 @@ func runC02(c *Ctx, si interface{}) {
 				choices = append(choices, bad...)
 			}
 			af := genOp(NewTape(TapeSpec{Mode: "choice", Choices: choices, Default: "zero"}), rec)
-			c.T(af.brief())
+			c.T(af.tkey())
 			c.Probe("all_candidates_fail_stream", 1)
 			if af.Kind == "ok" && !p.S[af.Pw.S] {
 				c.Violate("support", "", "%s: on a stream where every candidate misses a requirement Generate returned %q, which the recipe does not allow", s.Cfg, af.Pw.S)
